@@ -329,6 +329,9 @@ Proof. intros x H. unfold time_of_float in H. destruct (f64_exp x =? 2047); [dis
 Lemma parse_rfc3339_noof : forall s, parse_rfc3339 s = OutOfFuel -> False.
 Proof. intros s H. unfold parse_rfc3339 in H. destruct (parse_core s) as [[sec ns] |]; [eapply time_of_unix_noof; eassumption | discriminate]. Qed.
 
+Lemma finite_or_err_noof : forall x, finite_or_err x = OutOfFuel -> False.
+Proof. intros x H. unfold finite_or_err in H. destruct (f64_is_inf x); discriminate. Qed.
+
 Lemma dec_tag_int_noof : forall b, dec_tag_int b = OutOfFuel -> False.
 Proof.
   intros b H. unfold dec_tag_int in H. destruct b as [| bd b1]; [discriminate |].
@@ -430,6 +433,7 @@ Ltac fin_prim :=
   | H : uint_bytes _ _ = OutOfFuel |- _ => exfalso; eapply uint_bytes_noof; exact H
   | H : int64v _ _ = OutOfFuel |- _ => exfalso; eapply int64v_noof; exact H
   | H : dec_tag_int _ = OutOfFuel |- _ => exfalso; eapply dec_tag_int_noof; exact H
+  | H : finite_or_err _ = OutOfFuel |- _ => exfalso; eapply finite_or_err_noof; exact H
   | H : parse_rfc3339 _ = OutOfFuel |- _ => exfalso; eapply parse_rfc3339_noof; exact H
   | H : time_of_float _ = OutOfFuel |- _ => exfalso; eapply time_of_float_noof; exact H
   | H : dec_str_body _ _ _ = OutOfFuel |- _ => exfalso; eapply dec_str_body_noof; [| exact H]; lens
